@@ -2,13 +2,14 @@
 # usage: tools_runall.sh [tier]   -- every claimed check on the current tree (VERIF_SEED from the environment)
 TIER="${1:-quick}"
 cd "$(dirname "$0")"
-for p in $(python3 -c "import json;print(' '.join(c['property_id'] for c in json.load(open('MANIFEST.json'))['checks']))"); do
-  ./check $p --tier $TIER > /tmp/runall_$p.txt 2>&1; rc=$?
-  echo "$p exit=$rc $(tail -1 /tmp/runall_$p.txt | cut -c1-170)"
+T=$(mktemp -d /tmp/runall.XXXXXX)   # per invocation: a soak and a manual run must not share output files
+for p in ${RUNALL_ONLY:-$(python3 -c "import json;print(' '.join(c['property_id'] for c in json.load(open('MANIFEST.json'))['checks']))")}; do
+  ./check $p --tier $TIER > $T/$p.txt 2>&1; rc=$?
+  echo "$p exit=$rc $(tail -1 $T/$p.txt | cut -c1-170)"
   if [ $rc -ne 0 ]; then
     # keep what a later triage needs even if the run's snapshot is removed
-    grep -E "^VIOLATION|^  signature|^  detail" /tmp/runall_$p.txt | cut -c1-700 | head -12
-    mkdir -p "${SOAK_KEEP:=/tmp/soak_keep}" && for f in $(grep "^VIOLATION" /tmp/runall_$p.txt | sed 's/.*replay=//'); do cp "$f" "$SOAK_KEEP/" 2>/dev/null; done
+    grep -E "^VIOLATION|^  signature|^  detail" $T/$p.txt | cut -c1-700 | head -12
+    mkdir -p "${SOAK_KEEP:=/tmp/soak_keep}" && for f in $(grep "^VIOLATION" $T/$p.txt | sed 's/.*replay=//'); do cp "$f" "$SOAK_KEEP/" 2>/dev/null; done
   fi
-  grep "^HARNESS-ERROR" /tmp/runall_$p.txt | head -2 | cut -c1-200
+  grep "^HARNESS-ERROR" $T/$p.txt | head -2 | cut -c1-200
 done
